@@ -6,7 +6,7 @@ import sys
 ROOT = os.path.dirname(os.path.dirname(os.path.abspath(__file__)))
 sys.path.insert(0, ROOT)
 
-DECODE = {'C02', 'C03', 'C04', 'C06', 'C07', 'C08', 'C09', 'C10'}
+DECODE = {'C02', 'C06', 'C07', 'C08', 'C09', 'C10'}
 DECODE_PLUS = {'C01'}
 
 
@@ -25,6 +25,12 @@ def main():
     elif a.prop in ('C12', 'C13', 'C14', 'C15'):
         from checks import tracker_driver
         tracker_driver.main(a.prop, a.tier)
+    elif a.prop == 'C03':
+        from checks import c03
+        c03.main(a.tier)
+    elif a.prop == 'C04':
+        from checks import c04
+        c04.main(a.tier)
     elif a.prop == 'C20':
         from checks import c20
         c20.main(a.tier)
